@@ -28,8 +28,16 @@ ALL = [f"C{i:02d}" for i in range(1, 21)]
 PY_TARGETS = ["adapters.py", "modifiers.py", "steps.py", "cli.py", "report.py", "runners.py", "files.py", "parser.py", "predicates.py", "pipeline.py", "kmer_heuristic.py", "statistics.py", "align.py", "_match_tables.py"]
 
 
+_ROOT = None
+_SHARD = None  # (k, n): build only every n-th twin of a family/file (the thorough tier generates twins inside its workers)
+
+
+def _want(i):
+    return _SHARD is None or i % _SHARD[1] == _SHARD[0]
+
+
 def _read(fn):
-    with open(os.path.join(repo_root(), PKG_REL, fn), encoding="utf-8") as f:
+    with open(os.path.join(_ROOT or repo_root(), PKG_REL, fn), encoding="utf-8") as f:
         return f.read()
 
 
@@ -82,8 +90,12 @@ class _Rename(ast.NodeTransformer):
 def twins_rename_local(fn_name, src):
     tree = ast.parse(src)
     funcs = list(_functions(tree))
+    cnt = -1
     for i, fn in enumerate(funcs):
         for loc in _locals_of(fn):
+            cnt += 1
+            if not _want(cnt):
+                continue
             # the generated rename function of Renamer uses exec'd code with fixed names: skip dunder-ish and short loop names used in f-strings? (all fine: Name nodes cover f-strings)
             t2 = ast.parse(src)
             f2 = list(_functions(t2))[i]
@@ -99,6 +111,8 @@ def twins_flip_compare(fn_name, src):
     tree = ast.parse(src)
     sites = [n for n in ast.walk(tree) if isinstance(n, ast.Compare) and len(n.ops) == 1 and type(n.ops[0]) in _MIRROR]
     for i in range(len(sites)):
+        if not _want(i):
+            continue
         t2 = ast.parse(src)
         n = [x for x in ast.walk(t2) if isinstance(x, ast.Compare) and len(x.ops) == 1 and type(x.ops[0]) in _MIRROR][i]
         # operands with side effects / order dependence: only flip when both sides are call-free or the calls are pure-looking
@@ -113,6 +127,8 @@ def twins_negate_if(fn_name, src):
         return isinstance(n, ast.If) and n.orelse and not (len(n.orelse) == 1 and isinstance(n.orelse[0], ast.If))
     sites = [n for n in ast.walk(tree) if eligible(n)]
     for i in range(len(sites)):
+        if not _want(i):
+            continue
         t2 = ast.parse(src)
         n = [x for x in ast.walk(t2) if eligible(x)][i]
         n.test = ast.UnaryOp(op=ast.Not(), operand=n.test)
@@ -128,6 +144,8 @@ def twins_ifexp_to_if(fn_name, src):
         return isinstance(n, ast.Assign) and len(n.targets) == 1 and isinstance(n.value, ast.IfExp) and isinstance(n.targets[0], (ast.Name, ast.Attribute))
     sites = [n for n in ast.walk(tree) if eligible(n)]
     for i in range(len(sites)):
+        if not _want(i):
+            continue
         t2 = ast.parse(src)
         class T(ast.NodeTransformer):
             k = -1
@@ -156,6 +174,8 @@ def twins_augassign(fn_name, src):
             continue
         if not (isinstance(sites[i].value, ast.Constant) or isinstance(sites[i].op, ast.Sub) or "len(" in ast.unparse(sites[i].value) or "bool(" in ast.unparse(sites[i].value) or "other." in ast.unparse(sites[i].value)):
             continue  # only where the operand is clearly numeric
+        if not _want(i):
+            continue
         t2 = ast.parse(src)
         class T(ast.NodeTransformer):
             k = -1
@@ -223,11 +243,18 @@ FAMILIES = {
 }
 
 
-def gen_twins(families=None):
+def gen_twins(families=None, root=None, files=None, shard=None):
+    global _ROOT, _SHARD
+    _ROOT = root
+    _SHARD = shard
     for fam, gen in FAMILIES.items():
         if families and fam not in families:
             continue
+        if shard is not None and shard[0] != 0 and fam in ("reformat", "permissive"):
+            continue  # unsharded families: built by shard 0 only
         for fn in PY_TARGETS:
+            if files is not None and fn not in files:
+                continue
             try:
                 src = _read(fn)
             except FileNotFoundError:
@@ -235,8 +262,10 @@ def gen_twins(families=None):
             for tid, new in gen(fn, src):
                 if new != src:
                     yield tid, fn, new
-    if not families or "pyx" in families:
-        yield from twins_pyx()
+    if (not families or "pyx" in families) and (shard is None or shard[0] == 0):
+        for tid, fn, new in twins_pyx():
+            if files is None or fn in files:
+                yield tid, fn, new
 
 
 # ---------------------------------------------------------------------------
